@@ -318,4 +318,59 @@ def conservedStep (cfg : Cfg) (s s' : State) (reward : Rat) : Bool :=
 /-- C05: what an illegal action does (documented: the episode ends, no reward) -/
 def illegalOk (ts : TimeStep Obs) : Bool := ts.stepType == .last && ts.reward == [0]
 
+/-! ### documented reward function and the reset state as a generated instance (C10) -/
+
+/-- the documented reward of clearing `k` lines with one piece: `REWARD_LIST[k]` = 0, 40, 100, 300, 1200
+("0 if no line was cleared and a convex function of the number of cleared lines otherwise") -/
+def lineReward (k : Nat) : Rat := rewardList.getD k 0
+
+/-- generator certificate: what `reset` advertises — an empty padded grid of the configured size (also stored as
+the previous grid), a piece index below 7 whose stored `new_tetromino` (= `old_tetromino_rotated`) is rotation 0 of
+the table entry, an action mask that is the legality table of that state and is not empty, zero score / reward /
+step count / positions, no full line, `is_reset` set -/
+def InstanceOK (cfg : Cfg) (s : State) : Prop :=
+  s.gridPadded = Jx.Grid.mk (cfg.numRows + 3) (cfg.numCols + 3) 0 ∧ s.gridPaddedOld = s.gridPadded ∧
+  s.tetrominoIndex < 7 ∧ s.newTetromino = pieceAt s.tetrominoIndex 0 ∧
+  s.oldTetrominoRotated = s.newTetromino ∧
+  s.actionMask = legalMask cfg s ∧ s.actionMask.any (fun r => r.any id) = true ∧
+  s.xPosition = 0 ∧ s.yPosition = 0 ∧ s.fullLines = List.replicate (cfg.numRows + 3) false ∧
+  s.score = 0 ∧ s.reward = 0 ∧ s.isReset = true ∧ s.stepCount = 0
+
+instance (cfg : Cfg) (s : State) : Decidable (InstanceOK cfg s) := by unfold InstanceOK; infer_instance
+
+/-! ### whole episodes: the L1 `step` folded over (action, draw) triples, stopping at the first LAST step -/
+
+inductive Ending | running | last | illegal
+  deriving DecidableEq, Repr
+
+/-- outcome of a play: `final` = the state after the last LEGAL step (an illegal action ends the episode; the grid it
+leaves behind is not specified by the rules), `ret` = sum of ALL rewards paid (the illegal step included), `lines` =
+number of lines cleared by each placed piece, in order -/
+structure Outcome where
+  final : State
+  ret : Rat
+  lines : List Nat
+  ending : Ending
+
+/-- play (rotation, column, next-piece draw) triples with the L1 `step` until the first LAST time step -/
+def play (cfg : Cfg) (s : State) : List (Nat × Nat × Nat) → Outcome
+  | [] => ⟨s, 0, [], .running⟩
+  | a :: as =>
+    if (step cfg s (a.1 : Int) (a.2.1 : Int) a.2.2).2.stepType = .last then
+      if legal cfg s a.1 a.2.1 then
+        ⟨(step cfg s (a.1 : Int) (a.2.1 : Int) a.2.2).1, (step cfg s (a.1 : Int) (a.2.1 : Int) a.2.2).2.reward.sum,
+          [(dropSpec cfg s.gridPadded s.tetrominoIndex a.1 a.2.1).2], .last⟩
+      else ⟨s, (step cfg s (a.1 : Int) (a.2.1 : Int) a.2.2).2.reward.sum, [], .illegal⟩
+    else
+      ⟨(play cfg (step cfg s (a.1 : Int) (a.2.1 : Int) a.2.2).1 as).final,
+       (step cfg s (a.1 : Int) (a.2.1 : Int) a.2.2).2.reward.sum +
+         (play cfg (step cfg s (a.1 : Int) (a.2.1 : Int) a.2.2).1 as).ret,
+       (dropSpec cfg s.gridPadded s.tetrominoIndex a.1 a.2.1).2 ::
+         (play cfg (step cfg s (a.1 : Int) (a.2.1 : Int) a.2.2).1 as).lines,
+       (play cfg (step cfg s (a.1 : Int) (a.2.1 : Int) a.2.2).1 as).ending⟩
+
+/-- in-spec play: rotation < 4, column < numCols, drawn piece index < 7 -/
+def InSpec (cfg : Cfg) (as : List (Nat × Nat × Nat)) : Prop :=
+  ∀ a ∈ as, a.1 < 4 ∧ a.2.1 < cfg.numCols ∧ validDraw a.2.2
+
 end Tetris
